@@ -11,8 +11,8 @@ Open Scope list_scope.
 
 Fixpoint split_on_aux (sep : N) (s : bytes) (cur : bytes) : list bytes :=
   match s with
-  | [] => [rev cur]
-  | c :: t => if c =? sep then rev cur :: split_on_aux sep t [] else split_on_aux sep t (c :: cur)
+  | [] => [frev cur]
+  | c :: t => if c =? sep then frev cur :: split_on_aux sep t [] else split_on_aux sep t (c :: cur)
   end.
 Definition split_on (sep : N) (s : bytes) : list bytes := split_on_aux sep s [].
 
